@@ -31,20 +31,27 @@ ASSUMPTIONS = [
 # ---------------------------------------------------------------- model-side definitions
 
 
+def _i64(v):
+    # the real host functions build an IntType: a result outside int64 is a ValueError there, i.e. an evaluation error by the property
+    if not -(2**63) <= v < 2**63:
+        raise lang.ModelErr("host function result outside int64")
+    return ("int", v)
+
+
 def m_h0():
     return ("int", 7)
 
 
 def m_h1(a):
-    return ("int", a[1] + 1)
+    return _i64(a[1] + 1)
 
 
 def m_h2(a, b):
-    return ("int", a[1] * 1000 + b[1])
+    return _i64(a[1] * 1000 + b[1])
 
 
 def m_h3(a, b, c):
-    return ("int", a[1] * 1000000 + b[1] * 1000 + c[1])
+    return _i64(a[1] * 1000000 + b[1] * 1000 + c[1])
 
 
 def m_hs(s):
@@ -53,6 +60,10 @@ def m_hs(s):
 
 def m_hb(a):
     return ("bool", a[1] % 2 == 0)
+
+
+def m_hany(*a):
+    return ("int", 40 + len(a))
 
 
 def m_err(*a):
@@ -67,7 +78,7 @@ def m_contains(a, b):
     return ("bool", True)
 
 
-MODEL = {"size#bad": m_err, "contains#bad": m_err, "string#bad": m_err, "h0": m_h0, "h1": m_h1, "h2": m_h2, "h3": m_h3, "hs": m_hs, "hb": m_hb, "herr": m_err, "hval": m_err, "htyp": m_err, "hvsub": m_err, "htsub": m_err, "size": m_size, "contains": m_contains}
+MODEL = {"size#bad": m_err, "contains#bad": m_err, "string#bad": m_err, "h0": m_h0, "h1": m_h1, "h2": m_h2, "h3": m_h3, "hany": m_hany, "hs": m_hs, "hb": m_hb, "herr": m_err, "hval": m_err, "htyp": m_err, "hvsub": m_err, "htsub": m_err, "size": m_size, "contains": m_contains}
 BASE = ["h0", "h1", "h2", "h3", "hs", "hb", "herr", "hval", "htyp"]
 
 
@@ -136,6 +147,9 @@ def make_functions(kind, names):
 KINDS = ["module-def", "nested-def", "lambda", "callable-object"]
 I = lambda v: Node("lit", "int", ("int", v))
 S = lambda v: Node("lit", "string", ("string", v))
+
+
+OPTS = {}  # label -> {"env": extra bindings, "annotations": declared names} for programs that need more than x
 
 
 def programs():
@@ -221,6 +235,41 @@ def programs():
     add("s.contains(t) && false, override returns error", Node("bin", "bool", "&&", Node("meth", "bool", "contains", S("abc"), S("b")), F_), {"contains#bad": (0, 1)})
     add("string(1) override raises AttributeError", Node("call", "string", "string", I(1)), {"string#bad": (1, 1)})
     add("string(1) + 'x' override raises AttributeError", Node("bin", "string", "+", Node("call", "string", "string", I(1)), S("x")), {"string#bad": (1, 1)})
+    # an argument that is an evaluation error: the call is an evaluation error, and a function that accepts anything never sees an error object
+    Z = Node("bin", "int", "/", I(1), Node("bin", "int", "-", X, X))
+    A_ = lambda *a: Node("call", "int", "hany", *a)
+    add("errarg f(err)", A_(Z), {"hany": (0, 1)})
+    add("errarg f(a, err)", A_(X, Z), {"hany": (0, 1)})
+    add("errarg f(err, a)", A_(Z, X), {"hany": (0, 1)})
+    add("errarg a.f(err)", Node("meth", "int", "hany", X, Z), {"hany": (0, 1)})
+    add("errarg err.f()", Node("meth", "int", "hany", Z), {"hany": (0, 1)})
+    add("errarg err.f(a)", Node("meth", "int", "hany", Z, X), {"hany": (0, 1)})
+    add("errarg f(a, err) == 42 || false", Node("bin", "bool", "||", Node("bin", "bool", "==", A_(X, Z), I(42)), F_), {"hany": (0, 1)})
+    add("errarg f(err) == 41 || true", Node("bin", "bool", "||", Node("bin", "bool", "==", A_(Z), I(41)), T_), {"hany": (0, 1)})
+    add("errarg f(err) > 0 ? 1 : 2", Node("cond", "int", Node("bin", "bool", ">", A_(Z), I(0)), I(1), I(2)), {"hany": (0, 1)})
+    add("errarg [1,2].map(e, f(e, err))", Node("macro", ("list", "int"), "map", L2, "e", A_(E, Z)), {"hany": (0, 2)})
+    add("errarg f(g(err))", Node("call", "int", "h1", A_(Z)), {"hany": (0, 1), "h1": (0, 1)})
+    add("errarg f(herr(a))", A_(Node("call", "int", "herr", X)), {"hany": (0, 1), "herr": (1, 1)})
+    add("errarg a.f(hval(a))", Node("meth", "int", "hany", X, Node("call", "int", "hval", X)), {"hany": (0, 1), "hval": (1, 1)})
+    add("errarg f(a, b) no error", A_(X, I(2)), {"hany": (1, 1)})
+    # a variable, macro variable or declared name spelled like a supplied function: the call still reaches the function
+    def clash(label, node, sites, env=None, ann=None):
+        add(label, node, sites)
+        OPTS[label] = {"env": env or {}, "annotations": ann or {}}
+
+    H1V, H2V, HBV = Node("var", "int", "h1"), Node("var", "int", "h2"), Node("var", "int", "hb")
+    clash("clash var f(a)", Node("call", "int", "h1", X), {"h1": (1, 1)}, {"h1": ("int", 5)})
+    clash("clash var f(a) + var", Node("bin", "int", "+", Node("call", "int", "h1", X), H1V), {"h1": (1, 1)}, {"h1": ("int", 5)})
+    clash("clash var f(var)", Node("call", "int", "h1", H1V), {"h1": (1, 1)}, {"h1": ("int", 5)})
+    clash("clash var a.f(var)", Node("meth", "int", "h2", X, H2V), {"h2": (1, 1)}, {"h2": ("int", 5)})
+    clash("clash var var.f(a)", Node("meth", "int", "h2", H2V, X), {"h2": (1, 1)}, {"h2": ("int", 5)})
+    clash("clash macro-var map(f, f(f))", Node("macro", ("list", "int"), "map", L2, "h1", Node("call", "int", "h1", H1V)), {"h1": (2, 2)})
+    clash("clash macro-var map(f, f.f(f))", Node("macro", ("list", "int"), "map", L2, "h2", Node("meth", "int", "h2", H2V, H2V)), {"h2": (2, 2)})
+    clash("clash macro-var filter(fb, fb(fb))", Node("macro", ("list", "int"), "filter", L2, "hb", Node("call", "bool", "hb", HBV)), {"hb": (2, 2)})
+    clash("clash declared f(a)", Node("call", "int", "h1", X), {"h1": (1, 1)}, None, {"h1": "IntType"})
+    clash("clash declared+var f(a) + var", Node("bin", "int", "+", Node("call", "int", "h1", X), H1V), {"h1": (1, 1)}, {"h1": ("int", 5)}, {"h1": "IntType"})
+    clash("clash declared a.f(b)", Node("meth", "int", "h2", X, I(5)), {"h2": (1, 1)}, None, {"h2": "IntType", "x": "IntType"})
+    clash("clash declared any f(a, b)", A_(X, I(2)), {"hany": (1, 1)}, None, {"hany": "MapType"})
     # shadowing built-ins
     add("size(l) shadowed", Node("call", "int", "size", Node("list", ("list", "int"), I(1), I(2))), {"size": (1, 1)})
     add("l.size() shadowed", Node("meth", "int", "size", Node("list", ("list", "int"), I(1), I(2))), {"size": (1, 1)})
@@ -330,6 +379,9 @@ def run_case(acc, label, node, sites, style, kind, r, xval):
     else:
         supplied = dict(funcs)
     env = {"x": ("int", xval)}
+    opts = OPTS.get(label, {})
+    env.update(opts.get("env", {}))
+    ann = {k: getattr(core.celpy().celtypes, v) for k, v in opts.get("annotations", {}).items()}
     model = CountingModel(env, names)
     try:
         exp = ("V", model.ev(node))
@@ -339,8 +391,12 @@ def run_case(acc, label, node, sites, style, kind, r, xval):
         return
     src = lang.to_text(node)
     del hostfuncs.LOG[:]
-    out = core.api_eval(r, src, MV.cel_env(env), functions=supplied)
+    out = core.api_eval(r, src, MV.cel_env(env), functions=supplied, annotations=ann or None)
     log = list(hostfuncs.LOG)
+    if label.startswith("errarg"):
+        acc.hook("erroring-argument")
+    if label.startswith("clash"):
+        acc.hook("name-spelled-like-a-function")
     acc.hook("evaluate:" + r)
     acc.hook("host-call", len(log))
     acc.evaluations += 1
@@ -359,9 +415,14 @@ def run_case(acc, label, node, sites, style, kind, r, xval):
         got = sorted((n, args) for n, args in log)
         if core.jkey(want) != core.jkey(got):
             problems.append(("arguments", "received-args-differ"))
+    if any(isinstance(a, list) and a and a[0] == "<error-object>" for c in log for a in c[1]):
+        problems.insert(0, ("arguments", "received-a-non-CEL-argument"))
     acc.cell(label, style, kind, r, "ok" if not problems else problems[0][0])
     for what, detail in problems[:1]:
         shape = "method" if node.k == "meth" or any(x.k == "meth" and x.a[0] in sites for x in lang.walk(node)) else "function"
+        if label.startswith("errarg"):
+            origin = "host-returned-error" if "herr" in sites else ("host-raised-error" if "hval" in sites else "operator-error")
+            shape = f"errarg {origin} {shape}"
         acc.violation(
             f"{r} {kind} {style} {shape} {what} {detail}",
             f"{'interpreted' if r == 'I' else 'compiled'} [{style}, {kind}] {src!r}: {what} {detail}; outcome {core.jkey(out)[:100]}; calls {str(log)[:120]}",
